@@ -409,6 +409,16 @@ func (mr *msgReader) Read(p []byte) (n int, err error) {
 		p = p[:n]
 		mr.dict.write(p)
 	}
+	if err == io.EOF && mr.flate {
+		// The deflate stream ended with a final block (RFC 7692 section 7.2.3.4) before
+		// the inflater consumed the whole message. Read the remainder so that the message
+		// only ends once its final frame has been received and so that no compressed
+		// bytes are left buffered for the next message.
+		_, err = io.Copy(io.Discard, mr.flateBufio)
+		if err == nil {
+			err = io.EOF
+		}
+	}
 	// Only the message's own end may be reported as io.EOF: mr.read returns a bare io.EOF
 	// once the final frame has been consumed, and the inflater a bare io.ErrUnexpectedEOF
 	// after the deflate tail. Transport errors are always wrapped and must stay errors.
